@@ -259,6 +259,9 @@ class Script:
         self.robots_replies = robots_replies      # None: /robots.txt is an ordinary page
         self.rlog = []         # requests for /robots.txt when robots_replies is given
         self.on_request = None  # callback(k, head) when the k-th page request has arrived, before it is answered
+        self.tunnels = []      # per entry of log: the CONNECT target of the connection the request came in on, or None
+        self.rtunnels = []     # the same for rlog
+        self.connects = []     # (ip, port, head) of every CONNECT request (the server plays an HTTP proxy too)
 
 
 def response_bytes(rep):
@@ -279,6 +282,7 @@ class ScriptServer:
         self.buf = b''
         self.need_body = 0
         self.head = None
+        self.tunnel = None      # set by a CONNECT on this connection
 
     def on_write(self, conn, data):
         self.buf += data
@@ -298,14 +302,23 @@ class ScriptServer:
             if len(self.buf) < self.need_body:
                 return
             body, self.buf = self.buf[:self.need_body], self.buf[self.need_body:]
+            if self.head.startswith(b'CONNECT '):
+                # proxy role: open the tunnel, what follows on this connection is for that origin
+                self.tunnel = self.head.split(b' ')[1].decode('latin-1')
+                self.script.connects.append((conn.address[0], conn.address[1], self.head))
+                self.head = None
+                conn.send(b'HTTP/1.1 200 Connection established\r\n\r\n')
+                continue
             if self.script.robots_replies is not None and self.head.split(b' ')[1:2] and \
                     self.head.split(b' ')[1].split(b'?')[0] == b'/robots.txt':
                 k = len(self.script.rlog)
                 self.script.rlog.append((conn.address[0], conn.address[1], self.head, body))
+                self.script.rtunnels.append(self.tunnel)
                 replies = self.script.robots_replies
             else:
                 k = len(self.script.log)
                 self.script.log.append((conn.address[0], conn.address[1], self.head, body))
+                self.script.tunnels.append(self.tunnel)
                 replies = self.script.replies
                 if self.script.on_request:
                     self.script.on_request(k, self.head)
@@ -445,7 +458,8 @@ def run_session(url, replies, max_redirects=20, use_jar=True, factory_pairs=(('U
                             outcome = 'non-http-next-request'
                             break
                         n_iter += 1
-                        if n_iter > 10000:
+                        if n_iter > 4 * (max_redirects + 2) + 40:
+                            # far beyond 2*(max_redirects+1): the visit sends requests without end
                             outcome = 'runaway'
                             break
                         task = asyncio.ensure_future(compat._ensure(sess.start()))
@@ -592,7 +606,7 @@ def model_replies(log, replies, loads_iter):
 
 
 def run_crawl(url, replies, tries, max_redirects, login=None, timeout=20, robots=None, cap=None, host_fail=None, retry=None,
-              extra_argv=(), recursive=False, on_request=None, on_event=None):
+              extra_argv=(), recursive=False, on_request=None, on_event=None, tls_passthrough=False, req_cap=None):
     """Builder(args).build().run() of the REAL application (pipeline, URL table, processor, rules,
     filters, web client) against the scripted servers.  Returns the visits of `url` as seen at the
     URL table: [(requests issued during the visit, status after, try_count after)], plus the
@@ -606,7 +620,6 @@ def run_crawl(url, replies, tries, max_redirects, login=None, timeout=20, robots
     from wpull.protocol.http.redirect import RedirectTracker
 
     script = Script(replies, robots_replies=(robots['replies'] if robots else None))
-    script.on_request = on_request
     loads = []
 
     class EventList(list):
@@ -621,6 +634,16 @@ def run_crawl(url, replies, tries, max_redirects, login=None, timeout=20, robots
         # visit that is offered again consumed a scripted reply
         cap = (tries + 4) if tries >= 1 else (len(replies) + len(robots['replies'] if robots else []) + 6)
     capped = [False]
+    if req_cap is None:
+        # no terminating crawl of one URL sends more: (tries+1) visits x (2*(max_redirects+1) requests, twice for robots.txt)
+        req_cap = (max(tries, 1) + 2) * 4 * (max_redirects + 2) + len(replies) + 20
+
+    def _on_request(k, head):
+        if k > req_cap:
+            capped[0] = True
+        if on_request:
+            on_request(k, head)
+    script.on_request = _on_request
 
     class LogTracker(RedirectTracker):
         def load(self, response):
@@ -693,6 +716,19 @@ def run_crawl(url, replies, tries, max_redirects, login=None, timeout=20, robots
     loop = compat.new_loop()
     exit_code = None
     hung = False
+    import wpull.network.connection as _netconn
+    _orig_start_tls = _netconn.Connection.start_tls
+    if tls_passthrough:
+        # stand-in for TLS inside a CONNECT tunnel (no TLS peer in the in-memory network): the same byte stream on a
+        # new connection object, so the bytes written into the tunnel can be inspected
+        @asyncio.coroutine
+        def _passthrough(self, ssl_context=True):
+            conn = _netconn.Connection(self._address, hostname=self._hostname)
+            conn.reader, conn.writer = self.reader, self.writer
+            conn._state = _netconn.ConnectionState.created
+            conn._close_timer = _netconn.DummyCloseTimer()
+            return conn
+        _netconn.Connection.start_tls = _passthrough
     try:
         with net:
             b = Builder(args, unit_test=True)
@@ -740,6 +776,7 @@ def run_crawl(url, replies, tries, max_redirects, login=None, timeout=20, robots
         loop.close()
         asyncio.set_event_loop(None)
         shutil.rmtree(tmp, ignore_errors=True)
+        _netconn.Connection.start_tls = _orig_start_tls
     visits = []
     start = None
     for ev in events:
@@ -768,7 +805,9 @@ def run_crawl(url, replies, tries, max_redirects, login=None, timeout=20, robots
                 return h
         return ip
     named = [(name_of(ip), port, head, bd) for ip, port, head, bd in script.log]
-    return {'visits': visits, 'events': list(events), 'hops': list(script.log), 'named_hops': named, 'mreplies': mreplies, 'exit': exit_code,
+    connects = [(name_of(ip), port, head) for ip, port, head in script.connects]
+    return {'visits': visits, 'events': list(events), 'hops': list(script.log), 'named_hops': named, 'tunnels': list(script.tunnels),
+            'connects': connects, 'mreplies': mreplies, 'exit': exit_code,
             'hung': hung, 'capped': capped[0], 'checkouts': len([e for e in events if e[0] == 'out']),
             'rhops': list(script.rlog), 'rmreplies': rmreplies, 'robots': robots, 'retry': retry, 'attempts': attempts[0],
             'rejects': rejects, 'answers': [], 'init_pairs': [], 'init_url': URLInfo.parse(url)}
